@@ -191,6 +191,104 @@ Proof.
   - apply lossless_gen; auto.
 Qed.
 
+(** * Exact losslessness: under spec-validity (no null at a typed position) nothing at all is dropped, nulls inside
+    free-form data included *)
+Lemma preserved_exact_ok_sound : forall fuel a b, preserved_exact_ok fuel a b = true -> preserved_exact a b.
+Proof.
+  induction fuel as [|f IH]; intros a b H; simpl in H; apply orb_true_iff in H; destruct H as [H|H].
+  - apply json_eqb_eq in H. subst. constructor.
+  - discriminate.
+  - apply json_eqb_eq in H. subst. constructor.
+  - destruct a; try discriminate; destruct b; try discriminate.
+    + apply PE_arr. revert l0 H. induction l as [|x l IHl]; intros [|y l0] H; try discriminate; constructor.
+      * apply andb_true_iff in H. destruct H. apply IH. assumption.
+      * apply andb_true_iff in H. destruct H. apply IHl. assumption.
+    + apply PE_obj. intros k v Hin. rewrite forallb_forall in H. specialize (H _ Hin). simpl in H.
+      apply existsb_exists in H. destruct H as ([k' v'] & Hin' & H). simpl in H.
+      apply andb_true_iff in H. destruct H as [H1 H2]. apply str_eqb_eq in H1. subst.
+      exists v'. split; auto.
+Qed.
+
+Lemma preserved_exact_preserved : forall a b, preserved_exact a b -> preserved a b.
+Proof.
+  fix IH 3. intros a b H. destruct H as [j|l l' F|m m' F].
+  - apply P_same.
+  - apply P_arr. induction F as [|x y l l' Hxy F IHF]; constructor; auto.
+  - apply P_obj. intros k v Hin _. destruct (F k v Hin) as (v' & Hin' & Hp). exists v'. split; auto.
+Qed.
+
+Theorem lossless_exact_gen SS : wf_schemas SS = true ->
+  forall fuel t j, wf_ty t = true -> conforms SS fuel t j = true ->
+  preserved_exact j (dump SS true (ref_validate SS fuel t j)).
+Proof.
+  intro WF. unfold conforms. induction fuel as [|f IH]; intros t j Wt C; [discriminate|].
+  destruct t; try (simpl; apply PE_same).
+  - (* TOpt *)
+    simpl in *. apply andb_true_iff in Wt. destruct Wt as [Wt _].
+    destruct (is_null j) eqn:N; [destruct j; try discriminate; apply PE_same|]. simpl in C. auto.
+  - (* TUnion *)
+    simpl in *. destruct (forallb is_model_ty ts) eqn:M; [|apply PE_same].
+    destruct (find (fun t' => negb (quick_reject SS t' j)) ts) as [t'|] eqn:F; try discriminate.
+    apply IH; auto. apply find_some in F. destruct F as [Hin _].
+    rewrite forallb_forall in M. specialize (M _ Hin). destruct t'; try discriminate. reflexivity.
+  - (* TList *)
+    simpl in *. destruct j; try discriminate. simpl. rewrite map_map. apply PE_arr.
+    apply Forall2_map_r. intros x Hx. rewrite forallb_forall in C. specialize (C x Hx).
+    destruct t; try (apply IH; assumption). rewrite ref_any. apply PE_same.
+  - (* TDict *)
+    simpl in *. destruct j; try discriminate. simpl. rewrite map_map. apply PE_obj.
+    intros k v Hin. exists (dump SS true (ref_validate SS f t v)). split.
+    + apply in_map_iff. exists (k, v). split; auto.
+    + rewrite forallb_forall in C. specialize (C _ Hin). simpl in C.
+      destruct t; try (apply IH; assumption). rewrite ref_any. apply PE_same.
+  - (* TModel *)
+    simpl in C. simpl (ref_validate _ _ _ _).
+    destruct (find_schema n SS) as [s|] eqn:FS; try discriminate.
+    destruct j; try discriminate.
+    apply andb_true_iff in C. destruct C as [C _].
+    apply andb_true_iff in C. destruct C as [C WO].
+    apply andb_true_iff in C. destruct C as [C NN].
+    pose proof (wf_find _ _ _ WF FS) as Ws.
+    simpl. apply PE_obj. intros k v Hin.
+    assert (Nv : is_null v = false).
+    { rewrite forallb_forall in NN. specialize (NN _ Hin). simpl in NN. apply negb_true_iff in NN. exact NN. }
+    destruct (is_extra (s_fields s) k) eqn:X.
+    + (* unknown member *)
+      exists v. split; [|apply PE_same]. apply in_flat_map. exists (k, VJ v). split.
+      * apply in_or_app. right. unfold extras. apply in_map_iff. exists (k, v). split; auto.
+        apply filter_In. split; auto.
+      * assert (Hvn : is_vnull (VJ v) = false) by (destruct v; auto; discriminate). rewrite Hvn.
+        unfold out_key. rewrite FS. rewrite (extra_find_none _ _ X). left. reflexivity.
+    + (* declared member *)
+      unfold is_extra in X. apply negb_false_iff in X. apply existsb_exists in X. destruct X as (fd & Hfd & K).
+      rewrite forallb_forall in C. pose proof (C fd Hfd) as FO. unfold field_ok in FO.
+      apply andb_true_iff in FO. destruct FO as [FO1 FO2]. apply Nat.leb_le in FO1.
+      pose proof (unique_lookup fd k v m Hin K FO1) as L. rewrite L in FO2.
+      assert (Kw : k = f_wire fd).
+      { unfold key_matches in K. apply orb_true_iff in K. destruct K as [K|K]; apply str_eqb_eq in K; auto.
+        unfold wire_only in WO. rewrite forallb_forall in WO. specialize (WO fd Hfd).
+        apply orb_true_iff in WO. destruct WO as [WO|WO].
+        - apply str_eqb_eq in WO. congruence.
+        - subst k. rewrite (in_has_key _ _ _ Hin) in WO. discriminate. }
+      destruct (wf_field _ _ Ws Hfd) as [W1 _].
+      exists (dump SS true (ref_validate SS f (f_ty fd) v)). split; [|apply IH; auto].
+      apply in_flat_map. exists (f_py fd, ref_validate SS f (f_ty fd) v). split.
+      * apply in_or_app. left. apply in_map_iff. exists fd. split; auto. unfold ref_field. rewrite L. reflexivity.
+      * rewrite (ref_nonnull SS f _ _ FO2 Nv). unfold out_key. rewrite FS.
+        assert (D : distinct_strs (map f_py (s_fields s)) = true).
+        { unfold wf_schema in Ws. repeat (apply andb_true_iff in Ws; destruct Ws as [Ws ?]). assumption. }
+        rewrite (find_py_self _ _ D Hfd). left. subst k. reflexivity.
+Qed.
+
+Lemma lossless_exact_fallback SS : wf_schemas SS = true ->
+  forall fuel t j, wf_ty t = true -> conforms SS fuel t j = true ->
+  exists v, fallback_validate SS fuel t j = Some v /\ preserved_exact j (dump_by_alias SS v).
+Proof.
+  intros WF fuel t j W C. exists (ref_validate SS fuel t j). split.
+  - apply agree_gen; auto.
+  - apply lossless_exact_gen; auto.
+Qed.
+
 (** * Every added member is a declared default *)
 Theorem added_declared SS : wf_schemas SS = true ->
   forall fuel n s m, find_schema n SS = Some s -> conforms SS (S fuel) (TModel n) (JObj m) = true ->
